@@ -555,7 +555,8 @@ def standard_check(mod, tier, seed):
     # 6. kernel sample
     if impl_ok and hasattr(mod, "coq_case") and not broken:
         k = 30 if tier == "quick" else 200
-        pick = [i for i in range(len(lines)) if len(lines[i]) < 3000 and i not in mism]
+        pick = [i for i in range(len(lines)) if len(lines[i]) < 3000 and i not in mism
+                and getattr(mod, "kernel_ok", lambda l: True)(lines[i])]
         rng2 = rng_for(seed, mod.PID + "kernel")
         rng2.shuffle(pick)
         pick = pick[:k]
